@@ -1,6 +1,7 @@
 package props
 
 import (
+	"os"
 	"fmt"
 	"reflect"
 	"strconv"
@@ -453,7 +454,10 @@ func RunC15(ep *core.Episode) {
 		api  int
 		want string
 	}
-	ntasks := 2 + tp.Choose("ntasks", 3)
+	// 3..5: as 0..2, and the statement-level yields the driver inserts into the binder's decoder construction are honoured
+	ntk := tp.Choose("ntasks", 6)
+	ntasks := 2 + ntk%3
+	astOn := ntk >= 3 && os.Getenv("VSIM_AST_OFF") == ""
 	plans := make([][]*job, ntasks)
 	for k := 0; k < ntasks; k++ {
 		nj := 2 + tp.Choose("njobs", 5)
@@ -511,6 +515,13 @@ func RunC15(ep *core.Episode) {
 	stored := map[interface{}]bool{}
 	concurrentFirst := false
 	verifhook.OnYield = func(site string, obj interface{}) {
+		if strings.HasPrefix(site, "ast") {
+			if astOn && (S.Known() || site == "ast-lock") {
+				ep.ProbeN("inserted-yield-taken", 1)
+				S.Yield(site)
+			}
+			return
+		}
 		ep.Probe("yield:" + site)
 		t := S.Current(site)
 		ep.Sig(site + "@" + t.Name)
